@@ -335,6 +335,15 @@ void dispatchArgs(GenState &gs, Node *c) {
     return;
   }
 
+  // a repeated parameter name would share one register while still counting
+  // as a separate argument (more ARGs than the frame has registers)
+  for (auto &reg : gs.getSymbols().register_state) {
+    if (reg.name == c->tok)
+      gs.err(CodegenResult::Error::Type::INTERNAL_ERROR,
+             "parameter name '" + c->tok + "' is declared twice in program '" +
+                 gs.getSymbols().name + "'");
+  }
+
   gs.getSymbols().argnum++;
   gs.getSymbols().fetchVariableRegister(std::string(c->tok));
 }
